@@ -1,19 +1,84 @@
 (* Properties/C07.v — decoding a built rule gives text that re-encodes to the same rule.
-   Proved here: the wire layer (decode of encode is the identity on the header and
-   the string buffer).  The text layer (ToCommandLine, flags.Parse) is not modelled:
-   the full round trip bytes -> text -> bytes -> text is decided on every generated
-   rule by the observation-level checker chk_C07 on the implementation. *)
-From Coq Require Import List Ascii NArith ZArith Bool.
+
+   The model: Model/RuleBuild.v (rule.Build on what flags.Parse returns, with the value parsers of
+   Model/RuleValue.v), Model/RuleEncode.v (toAuditRuleData / toWireFormat), Model/RuleDecode.v
+   (fromWireFormat / fromAuditRuleData), Model/RuleText.v (ToCommandLine), Model/Flags.v (flags.Parse
+   on tokens) and blank-splitting for shellquote.Split on a line without quotes.  Each is tied to
+   the implementation by the correspondence check of this property and of C06 / C14.
+
+   Proved: the full round trip for every rule that is printed in the -a form.
+   Not proved (decided on every generated rule by the checker chk_C07 and the correspondence):
+   the -w form, i.e. rules with exactly a path/dir, a perm and at most a key field. *)
+From Coq Require Import List Ascii String NArith ZArith Bool.
 Import ListNotations.
-Require Import Bytes Mach RuleTables RuleDecode Mask RuleEncode Uapi UapiRule RuleWire.
+Require Import Bytes Mach RuleTables RuleDecode Mask RuleEncode RuleText RuleValue FilterRe Flags RuleBuild.
+Require Import RuleWire RuleSpecWf RuleReprint RuleFlagsBack RuleFieldsBack RuleRoundTrip RuleTextSplit RuleDecodeBack RuleValueProofs RuleMaskText.
 Open Scope N_scope.
 
-Theorem C07_wire_roundtrip_partial : forall d, wf_data d ->
+(* the wire layer alone *)
+Theorem C07_wire_roundtrip : forall d, wf_data d ->
   from_wire (to_wire d) =
-    Ok ({| flags := w_flags d; action := w_action d; fcount := N.of_nat (length (w_triples d)); mask := w_mask d;
+    Ok ({| flags := w_flags d; action := w_action d; fcount := N.of_nat (List.length (w_triples d)); mask := w_mask d;
            fields := pad64 (map (fun t => fst (fst t)) (w_triples d)); values := pad64 (map snd (w_triples d));
-           fflags := pad64 (map (fun t => snd (fst t)) (w_triples d)); buflen := N.of_nat (length (concat (w_strings d))) |},
-        concat (w_strings d)).
+           fflags := pad64 (map (fun t => snd (fst t)) (w_triples d)); buflen := N.of_nat (List.length (List.concat (w_strings d))) |},
+        List.concat (w_strings d)).
 Proof. exact from_wire_to_wire. Qed.
 
-Print Assumptions C07_wire_roundtrip_partial.
+(* the domain of the property, on a parsed line:
+   - filter_ok: a -F value is not empty, holds no blank, and a bare < > & is not followed by '='
+     (what flags.Parse returns for a line whose values hold no whitespace);
+   - keys_ok: no key holds a blank;
+   - not_finding_103: the known finding (an explicit syscall set filling the first 63 mask words) is outside. *)
+Theorem C07_round_trip_a_form (stat : str -> bool) li ac fs scs keys s d :
+  spec_of_prule li ac fs scs keys = Some s -> data_of_spec s = Some d ->        (* Build accepts the rule *)
+  Forall filter_ok fs -> keys_ok keys -> not_finding_103 d ->
+  watch_items (w_flags d) (w_action d) (w_mask d) (w_triples d) (w_strings d) = None ->   (* printed in the -a form *)
+  exists text,
+    text_of_wire (to_wire d) = Some text /\                                      (* ToCommandLine succeeds on the wire form *)
+    rebuild stat text = Some d /\                                                (* its text is accepted and builds the same rule *)
+    option_map to_wire (rebuild stat text) = Some (to_wire d).                   (* hence byte-identical wire data, and the same text again *)
+Proof.
+  intros Hspec Hdata Hf Hk H103 Hw.
+  destruct (syscall_form_round_trip stat _ _ _ _ _ _ _ Hspec Hdata Hf Hk H103 Hw) as (its & Hits & Htok & Hfo & p' & Hparse & Hbuild).
+  destruct (built_of_data _ _ _ _ _ _ _ Hspec Hdata Hf Hk) as (fsK & lK & HbK & Hts & Hss).
+  pose proof (built_aligned _ _ _ HbK) as Hal.
+  destruct (decode_of_built d lK (data_of_spec_wf _ _ Hdata) Hts Hss Hal) as (h & buf & Hfw & Hfl & Hac & Hm & Hdec).
+  exists (text_of_items its).
+  assert (Ht: text_of_wire (to_wire d) = Some (text_of_items its)).
+  { unfold text_of_wire. rewrite Hfw, Hdec. unfold to_command_line. cbn [r_fields r_strings]. rewrite Hfl, Hac, Hm, Hits. reflexivity. }
+  assert (Hr: rebuild stat (text_of_items its) = Some d).
+  { unfold rebuild. rewrite (printed_text_splits _ Htok Hfo), Hparse. exact Hbuild. }
+  split; [exact Ht|]. split; [exact Hr|]. rewrite Hr. reflexivity.
+Qed.
+
+(* the value codecs on their own: whatever ToCommandLine prints after the operator is read back as the value *)
+Theorem C07_values_read_back f v t : f <> 111 -> value_in_range f v -> print_value f v = Some t -> parse_value f t = VOk v.
+Proof. exact (value_round_trip f v t). Qed.
+
+(* the syscall numbers listed for a mask rebuild the mask *)
+Theorem C07_mask_read_back m : mask_wf m -> build_mask (repeat 0 64) (syscalls_of m 0) = Some m.
+Proof. exact (mask_of_listed_syscalls m). Qed.
+
+Print Assumptions C07_wire_roundtrip.
+Print Assumptions C07_round_trip_a_form.
+Print Assumptions C07_values_read_back.
+Print Assumptions C07_mask_read_back.
+
+(* the hypotheses are met by an ordinary rule:  -a always,exit -F arch=b64 -S open,close -F uid>=1000 -F path=/etc/passwd -k id -k pw *)
+Example C07_example :
+  let fs := [(false, s2l "arch", s2l "=", s2l "b64"); (false, s2l "uid", s2l ">=", s2l "1000"); (false, s2l "path", s2l "=", s2l "/etc/passwd")] in
+  let keys := [s2l "id"; s2l "pw"] in
+  exists s d, spec_of_prule (s2l "exit") (s2l "always") fs [s2l "open"; s2l "close"] keys = Some s /\ data_of_spec s = Some d /\
+              Forall filter_ok fs /\ keys_ok keys /\ not_finding_103 d /\
+              watch_items (w_flags d) (w_action d) (w_mask d) (w_triples d) (w_strings d) = None.
+Proof.
+  cbv zeta.
+  destruct (spec_of_prule (s2l "exit") (s2l "always") _ _ _) as [s|] eqn:Es; [|vm_compute in Es; discriminate].
+  destruct (data_of_spec s) as [d|] eqn:Ed; [|vm_compute in Es; injection Es as <-; vm_compute in Ed; discriminate].
+  exists s, d. split; [first [exact Es | reflexivity]|]. split; [exact Ed|].
+  split. { repeat constructor. }
+  split. { right. reflexivity. }
+  vm_compute in Es. injection Es as <-. vm_compute in Ed. injection Ed as <-.
+  split. { intros H. vm_compute in H. discriminate. }
+  vm_compute. reflexivity.
+Qed.
